@@ -49,6 +49,91 @@ def socks_udp_unwrap(data):
     return None, data
 
 
+class FakeSocksUdpUpstream:
+    """a foreign SOCKS5 server on its own address: UDP ASSOCIATE only; it announces its relay as 0.0.0.0:port (the client is
+    to use the address it reached the server at) and relays datagrams to IPv4 / `localhost` destinations and back"""
+
+    def __init__(self, host):
+        self.host = host
+        self.ls = socket.socket(socket.AF_INET, socket.SOCK_STREAM)
+        self.ls.setsockopt(socket.SOL_SOCKET, socket.SO_REUSEADDR, 1)
+        self.ls.bind((host, 0))
+        self.ls.listen(32)
+        self.port = self.ls.getsockname()[1]
+        self.stop = False
+        threading.Thread(target=self._run, daemon=True).start()
+
+    def _run(self):
+        self.ls.settimeout(0.2)
+        while not self.stop:
+            try:
+                s, _ = self.ls.accept()
+            except socket.timeout:
+                continue
+            except OSError:
+                return
+            threading.Thread(target=self._serve, args=(s,), daemon=True).start()
+
+    def _serve(self, s):
+        try:
+            s.settimeout(5)
+            buf = b""
+            while len(buf) < 2 or len(buf) < 2 + buf[1]:
+                d = s.recv(512)
+                if not d:
+                    return
+                buf += d
+            buf = buf[2 + buf[1]:]
+            s.sendall(b"\x05\x00")
+            while len(buf) < 10:
+                d = s.recv(512)
+                if not d:
+                    return
+                buf += d
+            relay = socket.socket(socket.AF_INET, socket.SOCK_DGRAM)
+            relay.bind((self.host, 0))          # the relay answers from the address the client talks to
+            out = socket.socket(socket.AF_INET, socket.SOCK_DGRAM)
+            out.bind(("127.0.0.1", 0))
+            s.sendall(b"\x05\x00\x00\x01\x00\x00\x00\x00" + struct.pack(">H", relay.getsockname()[1]))
+            client = [None]
+            s.settimeout(0.1)
+            relay.settimeout(0.05)
+            out.settimeout(0.01)
+            while not self.stop:
+                try:
+                    d, a = relay.recvfrom(70000)
+                    client[0] = a
+                    dst, p = socks_udp_unwrap(d)
+                    if dst is not None:
+                        out.sendto(p, ("127.0.0.1" if dst[0] == "domain" else dst[1], dst[2]))
+                except socket.timeout:
+                    pass
+                while True:
+                    try:
+                        d, a = out.recvfrom(70000)
+                    except socket.timeout:
+                        break
+                    if client[0]:
+                        relay.sendto(socks_udp_wrap(("ipv4", a[0], a[1]), d), client[0])
+                try:
+                    if s.recv(16) == b"":
+                        break
+                except socket.timeout:
+                    pass
+            relay.close(); out.close()
+        except OSError:
+            pass
+        finally:
+            s.close()
+
+    def close(self):
+        self.stop = True
+        try:
+            self.ls.close()
+        except OSError:
+            pass
+
+
 def quic_yaml(p2_quic, inline):
     return ("  - name: upquic%s\n    type: quic\n    server: localhost\n    port: %d\n    bind: \"127.0.0.1:0\"\n    inlineUdp: %s\n    tls:\n      ca: %s/ca.crt\n"
             % ("i" if inline else "", p2_quic, "true" if inline else "false", FX))
@@ -59,7 +144,11 @@ class UdpTopo:
         self.api1, self.api2 = bb.free_port(), bb.free_port()
         self.p2_http, self.p2_socks = bb.free_port(), bb.free_port()
         self.p2_quic = bb.free_port(socket.SOCK_DGRAM)
-        self.ups = ["direct", "uphttp", "upsocks5", "upquic", "upquici"]
+        self.fake_b = FakeSocksUdpUpstream("127.0.0.2")
+        self.p2_socks_b = self.fake_b.port
+        # upsocks5b: the upstream SOCKS proxy lives on another address than our end of the control connection and
+        # announces its UDP relay as 0.0.0.0:port ("same host as this connection", RFC 1928 practice)
+        self.ups = ["direct", "uphttp", "upsocks5", "upquic", "upquici", "upsocks5b"]
         self.rev = {u: bb.free_port(socket.SOCK_DGRAM) for u in self.ups}
         self.socks = {u: bb.free_port() for u in self.ups}
         ls = ""
@@ -67,7 +156,8 @@ class UdpTopo:
             ls += "  - name: udprev_%s\n    type: reverse\n    bind: 127.0.0.1:%d\n    target: 127.0.0.1:%d\n    protocol: udp\n" % (u, self.rev[u], origin4_port)
             ls += "  - name: socks_%s\n    type: socks\n    bind: 127.0.0.1:%d\n    allowUdp: true\n" % (u, self.socks[u])
         conns = ("  - name: direct\n    dns:\n      servers: system\n      family: V4Only\n  - name: uphttp\n    type: http\n    server: 127.0.0.1\n    port: %d\n"
-                 "  - name: upsocks5\n    type: socks\n    server: 127.0.0.1\n    port: %d\n" % (self.p2_http, self.p2_socks)) + quic_yaml(self.p2_quic, False) + quic_yaml(self.p2_quic, True)
+                 "  - name: upsocks5\n    type: socks\n    server: 127.0.0.1\n    port: %d\n"
+                 "  - name: upsocks5b\n    type: socks\n    server: 127.0.0.2\n    port: %d\n" % (self.p2_http, self.p2_socks, self.p2_socks_b)) + quic_yaml(self.p2_quic, False) + quic_yaml(self.p2_quic, True)
         rules = "".join("  - filter: 'request.listener =~ \"_%s$\"'\n    target: %s\n" % (u, u) for u in self.ups)
         head = "apiVersion: v1alpha\nkind: ProxyDefinition\ntimeouts:\n  idle: 600\n  udp: 600\n"
         self.cfg1 = head + "metrics:\n  bind: \"127.0.0.1:%d\"\n  ui: null\nlisteners:\n%sconnectors:\n%srules:\n%s" % (self.api1, ls, conns, rules)
@@ -83,6 +173,7 @@ class UdpTopo:
 
     def stop(self):
         self.p1.stop(); self.p2.stop()
+        self.fake_b.close()
 
 
 class Session:
@@ -228,7 +319,7 @@ def run(tier, t0):
     mc = vlib.tlc_must_pass(vlib.run_tlc("MCUdp", "MCUdp.cfg", workers=8, timeout=900), "MCUdp")
     sizes = [20, 100, 1200, 1472, 3000, 9000] + ([30000, 60000] if thorough else [20000])
     paths = [("direct", "reverse"), ("direct", "socks"), ("uphttp", "reverse"), ("uphttp", "socks"), ("upsocks5", "reverse"), ("upsocks5", "socks"),
-             ("upquic", "reverse"), ("upquic", "socks"), ("upquici", "reverse"), ("upquici", "socks")]
+             ("upquic", "reverse"), ("upquic", "socks"), ("upquici", "reverse"), ("upquici", "socks"), ("upsocks5b", "socks"), ("upsocks5b", "reverse")]
     all_recs = []
     sid = 1
     for up, mode in paths:
